@@ -5,3 +5,6 @@ PAIRS = [A[k] for k in ("page_malloc", "free_block_local", "set_in_full", "set_h
 import importlib.util as _u, os as _o
 _s = _u.spec_from_file_location("plan_C10_for_C01", _o.path.join(_o.path.dirname(__file__), "C10.py")); _m = _u.module_from_spec(_s); _s.loader.exec_module(_m)
 PAIRS += [p for p in _m.PAIRS if p["name"] in ("absorb", "delete")]
+# pages of one segment do not overlap: splitting partitions a span, coalescing merges only FREE neighbours, a freed span is re-labelled as one span
+import seg_common as _sc
+PAIRS += [_sc.pairs()["slice_split"], _sc.pairs()["span_free"]] + [p for p in _sc.span_allocate_pairs() if p["name"].startswith("span_coalesce")]
